@@ -23,14 +23,15 @@ def run(ck):
     from allmydata.mutable import publish as publish_mod
     default_seg = publish_mod.DEFAULT_MUTABLE_MAX_SEGMENT_SIZE
     ck.extra["default_mdmf_segment_size"] = default_seg
-    i = 0
+    i = mined = 0
     try:
         while ck.more(min_cases=60):
             i += 1
             if not ck.mine(i):
                 continue
             rng = ck.rng("case", i)
-            p = gen_case(rng, ck.tier, default_seg)
+            mined += 1
+            p = gen_case(rng, ck.tier, default_seg, pb_slot=mined if mined <= len(PB_FORCED) else None)
             publish_mod.DEFAULT_MUTABLE_MAX_SEGMENT_SIZE = p["segsize"]
             from vf.grid import VGrid, KEYPOOL
             KEYPOOL.rewind()
@@ -52,7 +53,10 @@ def run(ck):
                      "modify-changed-content", "modify-no-op", "overwrite-ok", "upload-with-servermap-ok",
                      "writer-node-fresh", "writer-node-reused", "reader-node-fresh", "reader-node-persistent",
                      "partial-read-straddles-segment-boundary", "default-segment-size-multi-segment",
-                     "multi-segment-mdmf")
+                     "multi-segment-mdmf",
+                     "prefix-boundary-mdmf-block-end-4001", "prefix-boundary-sdmf-block-end-4001",
+                     "prefix-boundary-size-by-create", "prefix-boundary-size-by-update-append",
+                     "prefix-boundary-size-by-overwrite", "prefix-boundary-size-by-modify")
 
 
 # ------------------------------------------------------------------ generation
@@ -72,7 +76,29 @@ def pow2_roundup(n):
     return p
 
 
-def gen_case(rng, tier, default_seg):
+# Readers keep the first PREFIX bytes of every share (what the servermap update read) and answer later requests from
+# that prefix when they fit: file sizes that put the end of a fetched region (a block, the block hash tree, the encrypted
+# private key) at share offset PREFIX-1..PREFIX+2 are a boundary class of their own, independent of segment boundaries.
+PREFIX = 4000
+PB_TARGETS = (PREFIX + 1, PREFIX + 1, PREFIX, PREFIX - 1, PREFIX + 2)
+# the first cases of every run/shard: (format, k, N); 3-of-10 is the default encoding
+PB_FORCED = [("MDMF", 3, 10), ("SDMF", 3, 10), ("MDMF", 1, 1), ("SDMF", 2, 4), ("MDMF", 4, 8), ("SDMF", 1, 2),
+             ("MDMF", 2, 3), ("SDMF", 3, 3)]
+
+
+def gen_case(rng, tier, default_seg, pb_slot=None):
+    if pb_slot is not None or rng.random() < .12:
+        if pb_slot is not None:
+            fmt, k, n = PB_FORCED[pb_slot - 1]
+        else:
+            fmt = rng.choice(["MDMF", "SDMF"])
+            n = rng.choice([1, 2, 3, 4, 8, 10])
+            k = rng.randint(1, min(4, n))
+        segsize = default_seg if (fmt == "SDMF" or pb_slot is not None or rng.random() < .5) else rng.choice([100, 1000, 4096])
+        return dict(fmt=fmt, k=k, n=n, nservers=rng.choice([1, 2, n, n + 1, 10]), profile=rng.choice(["fifo", "per-server-fifo", "free"]),
+                    segsize=segsize, S=next_multiple(segsize, k), maxsize=k * 4200, nops=rng.randint(5, 8),
+                    p_reuse=rng.choice([0.0, 0.5, 1.0]), reader=rng.choice(["writer", "persistent", "fresh", "mixed"]),
+                    reader_cap=rng.choice(["rw", "ro"]), pb=True)
     fmt = rng.choice(["MDMF", "MDMF", "MDMF", "SDMF"])
     n = rng.randint(1, 8)
     k = rng.randint(1, min(4, n))
@@ -188,6 +214,7 @@ class History(object):
         self.rcap = None
         self.persistent_reader = None
         self.mutations_ok = 0
+        self.pb_sizes = []       # [(size, region, share offset of the region's end)]
 
     # -- helpers
     def client(self):
@@ -214,9 +241,16 @@ class History(object):
     def run(self):
         ck, p, rng = self.ck, self.p, self.rng
         try:
+            if p.get("pb"):
+                self.prepare_pb()
             self.op_create()
-            for _ in range(p["nops"] - 1):
-                self.next_op()
+            how = ["update-append", "overwrite", "modify", "upload", "v-overwrite", "update-append", "modify"]
+            rng.shuffle(how)
+            for j in range(p["nops"] - 1):
+                if self.pb_sizes and (j < 4 or rng.random() < .6):
+                    self.next_op(pb=how[j % len(how)])
+                else:
+                    self.next_op()
         except Abort:
             pass
         multiseg = p["fmt"] == "MDMF" and any(o.get("segs_after", 0) > 1 for o in self.ops)
@@ -226,12 +260,71 @@ class History(object):
                 sample=dict(p, ops=[dict((k, v) for k, v in o.items() if k in ("op", "off", "len", "writer", "st", "segs_after", "mod"))
                                     for o in self.ops]))
 
+    # -- prefix-boundary sizes, derived from the real share layout of this case
+    def prepare_pb(self):
+        from collections import Counter
+        p, k, n = self.p, self.p["k"], self.p["n"]
+        targets = set(PB_TARGETS)
+        found = []
+        if p["fmt"] == "MDMF":
+            # the real write proxy computes the offset table of a share for (k, N, segment size, data length)
+            from allmydata.mutable.layout import MDMFSlotWriteProxy
+            for size in range(1, min(p["maxsize"], k * 2100) + 1):
+                w = MDMFSlotWriteProxy(0, None, b"\0" * 16, (b"", b"", b""), 1, k, n, p["S"], size)
+                sd = w._offsets["share_data"]
+                for seg in range(w._num_segments):
+                    e = sd + seg * w._actual_block_size + 16 + (
+                        w._tail_block_size if seg == w._num_segments - 1 else w._block_size)
+                    if e > PREFIX + 2:
+                        break
+                    if e in targets:
+                        found.append((size, "block", e))
+                e = w._offsets["block_hash_tree"] + 32 * (2 * pow2_roundup(w._num_segments) - 1)
+                if e in targets:
+                    found.append((size, "block-hash-tree", e))
+        else:
+            # SDMF offsets depend on key and hash-chain lengths: read them off the shares of a scratch file made by this
+            # client (real unpack_header on the real share files)
+            from allmydata.mutable.publish import MutableData
+            from allmydata.mutable.layout import unpack_header
+            from allmydata.storage.mutable import MutableShareFile
+            from allmydata.interfaces import SDMF_VERSION
+            st, probe = self.wait(self.client().create_mutable_file(MutableData(b"p" * k), version=SDMF_VERSION))
+            if st != "ok":
+                return
+            offs = Counter()
+            for (vs, shnum, path) in self.g.find_shares(probe.get_storage_index()):
+                o = unpack_header(MutableShareFile(path).readv([(0, 200)])[0])[-1]
+                offs[(o["share_data"], o["EOF"] - o["enc_privkey"])] += 1
+            (sd, privlen), _ = offs.most_common(1)[0]
+            for t in sorted(targets):
+                for (region, b) in (("block", t - sd), ("encprivkey", t - sd - privlen)):
+                    if b >= 1:
+                        for size in range(k * (b - 1) + 1, k * b + 1):
+                            found.append((size, region, t))
+        self.pb_sizes = [f for f in found if f[0] <= p["maxsize"]]
+
+    def pick_pb(self):
+        """A boundary size, biased to 'region ends exactly one byte behind the prefix'."""
+        rng = self.rng
+        t = rng.choice(PB_TARGETS)
+        c = [f for f in self.pb_sizes if f[2] == t and (f[1] == "block" or rng.random() < .3)] or self.pb_sizes
+        return rng.choice(c)
+
+    def hit_pb(self, how, size):
+        for (sz, region, e) in self.pb_sizes:
+            if sz == size:
+                self.ck.hit("prefix-boundary-size-by-" + how)
+                self.ck.hit("prefix-boundary-%s-%s-end-%d" % (self.p["fmt"].lower(), region, e))
+
     # -- operations
     def op_create(self):
         from allmydata.mutable.publish import MutableData
         from allmydata.interfaces import SDMF_VERSION, MDMF_VERSION
         p, rng = self.p, self.rng
         size = boundary_size(rng, p["S"], p["k"], p["maxsize"])
+        if self.pb_sizes and rng.random() < .7:
+            size = self.pick_pb()[0]
         data = rng.randbytes(size)
         self.writer_client = self.client()
         rec = dict(op="create", len=size, writer="new")
@@ -250,6 +343,7 @@ class History(object):
         self.rcap = node.get_readonly_uri()
         self.model = bytearray(data)
         rec["segs_after"] = self.segs()
+        self.hit_pb("create", size)
         self.verify(rec, "create", ok=True, alt=None)
 
     def pick_writer(self, rec):
@@ -264,13 +358,30 @@ class History(object):
             self.ck.hit("writer-node-fresh")
         return self.writer
 
-    def next_op(self):
+    def next_op(self, pb=None):
+        """pb: reach a prefix-boundary size by the named method (update-append / modify / overwrite / upload / v-overwrite)."""
         from allmydata.mutable.publish import MutableData
         from allmydata.mutable.common import MODE_WRITE
         ck, p, rng = self.ck, self.p, self.rng
         L, S = len(self.model), p["S"]
         kind = rng.choice(["update"] * 9 + ["modify"] * 4 + ["overwrite"] * 2 + ["upload"] * 2 + ["v-overwrite", "v-modify"])
+        pbt = None
+        if pb is not None:
+            pbt = self.pick_pb()[0]
+            if pb == "update-append":
+                bigger = [f for f in self.pb_sizes if f[0] > L]
+                if bigger:
+                    pbt = rng.choice(bigger)[0] if rng.random() < .5 else min(bigger)[0]
+                    kind = "update"
+                else:
+                    pb, kind = "modify", "modify"       # cannot grow to a boundary size: shrink to one
+            elif pb == "modify":
+                kind = rng.choice(["modify", "v-modify"])
+            else:
+                kind = pb
         rec = dict(op=kind)
+        if pb is not None:
+            rec["pb"] = pb
         self.ops.append(rec)
         node = self.pick_writer(rec)
         rec["node_size_before"] = node.get_size()
@@ -290,8 +401,12 @@ class History(object):
         if kind in ("modify", "v-modify"):
             mk = rng.choice(["append", "append", "prepend", "replace-middle", "shrink", "none", "same"])
             room = max(0, p["maxsize"] - L)
+            if pbt is not None and pbt != L:
+                mk = rng.choice(["append", "prepend"]) if pbt > L else "shrink"
             if mk in ("append", "prepend"):
                 x = rng.randbytes(min(room, rng.choice([1, 2, S - 1, S, S + 1, rng.randint(1, 2 * S)])))
+                if pbt is not None and pbt > L:
+                    x = rng.randbytes(pbt - L)
                 if mk == "append":
                     fn, new = (lambda o: o + x), old + x
                 else:
@@ -301,7 +416,7 @@ class History(object):
                 x = rng.randbytes(max(0, min(L - a, rng.choice([1, S, S + 1, rng.randint(0, S)]))))
                 fn, new = (lambda o: o[:a] + x + o[a + len(x):]), old[:a] + x + old[a + len(x):]
             elif mk == "shrink":
-                cut = pick_pos(rng, L, S)
+                cut = pick_pos(rng, L, S) if pbt is None or pbt > L else pbt
                 fn, new = (lambda o: o[:cut]), old[:cut]
             elif mk == "none":
                 fn, new = (lambda o: None), old
@@ -317,7 +432,7 @@ class History(object):
                     return self.finish_op(rec, opclass, st, best, old, new, modcalls)
                 d = best.modify(modifier)
         elif kind in ("overwrite", "upload", "v-overwrite"):
-            new = rng.randbytes(boundary_size(rng, S, p["k"], p["maxsize"]))
+            new = rng.randbytes(boundary_size(rng, S, p["k"], p["maxsize"]) if pbt is None else pbt)
             rec["len"] = len(new)
             if kind == "overwrite":
                 d = node.overwrite(MutableData(new))
@@ -334,6 +449,8 @@ class History(object):
         else:
             off = pick_pos(rng, L, S)
             end = pick_end(rng, off, L, S, p["maxsize"])
+            if pbt is not None and pbt > L:
+                off, end = (L if rng.random() < .7 else pick_pos(rng, L, S)), pbt
             x = rng.randbytes(end - off)
             rec["off"], rec["len"] = off, len(x)
             new = old[:off] + x + old[off + len(x):]
@@ -365,6 +482,9 @@ class History(object):
             if new != old:
                 self.mutations_ok += 1
             self.count_reach(rec, opclass, old, new)
+            if self.pb_sizes and len(new) != len(old):
+                self.hit_pb({"update": "update-append", "modify": "modify", "v-modify": "modify", "overwrite": "overwrite",
+                             "upload": "overwrite", "v-overwrite": "overwrite"}[rec["op"]], len(new))
             self.verify(rec, opclass, ok=True, alt=None)
         elif st == "err":
             rec["error"] = ferr(res)
@@ -608,15 +728,13 @@ def firstdiff(a, b):
 #   c09-replant-append-at-aligned-eof         update-mdmf-fails-append-at-segment-boundary-eof-IndexError
 # (15/15 caught on top of the two patches below.)
 #
+# Seeded changes (tools/selftest.py --seeded --prop C09): C09-1..C09-6 all caught.  C09-6 (MDMFSlotReadProxy._read fencepost:
+# a request ending one byte behind the 4000-byte cached share prefix is served one byte short) needs file sizes that put the
+# end of a block at share offset 4001; the "prefix-boundary" cases (first 8 cases of every run/shard + 12 % of the rest)
+# derive such sizes from the real offset tables (MDMFSlotWriteProxy / unpack_header of a scratch share) for region ends
+# 3999..4002 and reach them by create, append, overwrite/upload and modify (required reach counters prefix-boundary-*).
+#
 # Repaired in /repo after this check reported them: 0eb4d1b (Publish.update used the node's stale cached size),
-# 1699424 (append at a segment-aligned EOF asked for a segment that does not exist).
-# Repaired as well (73ba509 servermap, 7a3fd88 empty file, which takes the re-encode path):
-#   update-mdmf-fails-update-data-incomplete-with-several-shares-per-server
-#       mutable/servermap.py ServermapUpdater._got_results: `ds = []` inside the per-share loop (fetch_update_data branch)
-#       re-binds the list that collects the per-share DeferredLists, so the query is declared processed when only the LAST
-#       share of that server is done; if answers of one server overtake each other, the mapupdate finishes without the
-#       boundary segments / block hashes (and servermap entries) of the other shares.  fix: use a separate list name.
-#   update-mdmf-fails-empty-file-AssertionError(int), update-sdmf-fails-empty-file-ZeroDivisionError
-#       mutable/filenode.py MutableFileVersion._update: an empty MDMF file has no segment 0 to fetch/decode
-#       (retrieve.py _setup_encoding_parameters asserts read_length > 0); an empty SDMF file has segment size 0
-#       (div_ceil(old_size, 0)).  fix: `if old_size == 0: return self._upload(data)` before the segment arithmetic.
+# 1699424 (append at a segment-aligned EOF), 73ba509 (servermap update waited only for the last share of each server:
+# key update-mdmf-fails-update-data-incomplete-with-several-shares-per-server), 7a3fd88 (update() of an empty file:
+# keys update-mdmf-fails-empty-file-AssertionError(int), update-sdmf-fails-empty-file-ZeroDivisionError).
